@@ -265,7 +265,7 @@ struct SigAgg {
     what: String,
     detail: Value,
     case: Value,
-    /// further cases with this signature (kept for hangs only, up to 7: each is re-run before the hang is believed)
+    /// further cases with this signature (kept for hangs only, up to 47: each is re-run before the hang is believed)
     #[serde(default)]
     others: Vec<(u64, Value)>,
 }
@@ -316,7 +316,7 @@ impl Agg {
                     if k.contains("\thang|") {
                         all.sort_by_key(|x| x.0);
                         all.dedup_by_key(|x| x.0);
-                        all.truncate(7);
+                        all.truncate(47);
                         e.others = all;
                     } else {
                         e.others = vec![];
@@ -564,16 +564,29 @@ pub fn worker_main(prop: &dyn Prop, tier: Tier, seed: u64, a: WorkerArgs) -> i32
     // watchdog: a case that runs longer than the cap is a hang
     {
         let progress_path = a.progress.clone();
-        std::thread::spawn(move || loop {
+        std::thread::spawn(move || {
+            // wall-clock time of the current case as this thread saw it pass, a tick counting for at most two seconds:
+            // a machine that is suspended and resumed (the clock jumps by minutes in every worker at once) has not
+            // made the case any slower
+            let (mut seen_idx, mut seen_ms, mut last) = (u64::MAX, 0u64, now_ms());
+            loop {
             std::thread::sleep(Duration::from_millis(250));
+            let now = now_ms();
+            let tick = now.saturating_sub(last).min(2000);
+            last = now;
             let idx = CUR_IDX.load(Ordering::SeqCst);
+            if idx != seen_idx {
+                seen_idx = idx;
+                seen_ms = 0;
+            } else {
+                seen_ms += tick;
+            }
             if idx == u64::MAX {
                 continue;
             }
-            let started = CUR_START_MS.load(Ordering::SeqCst);
             let started_cpu = CUR_START_CPU_MS.load(Ordering::SeqCst);
             let busy_too_long = cpu_ms().saturating_sub(started_cpu) > CASE_TIMEOUT_S * 1000;
-            let stuck_too_long = now_ms().saturating_sub(started) > CASE_WALL_TIMEOUT_S * 1000;
+            let stuck_too_long = seen_ms > CASE_WALL_TIMEOUT_S * 1000;
             if (busy_too_long || stuck_too_long) && CUR_IDX.load(Ordering::SeqCst) == idx {
                 if let Ok(f) = std::fs::OpenOptions::new().write(true).open(&progress_path) {
                     let mut buf = [0u8; 24];
@@ -583,6 +596,7 @@ pub fn worker_main(prop: &dyn Prop, tier: Tier, seed: u64, a: WorkerArgs) -> i32
                     let _ = f.write_all_at(&buf, 0);
                 }
                 unsafe { libc::_exit(86) };
+            }
             }
         });
     }
@@ -861,7 +875,7 @@ fn run_shard(
             case: case.clone(),
             others: vec![],
         });
-        if st == 2 && e.count > 0 && e.others.len() < 7 && e.first_idx != idx {
+        if st == 2 && e.count > 0 && e.others.len() < 47 && e.first_idx != idx {
             e.others.push((idx, case.clone()));
         }
         e.count += 1;
@@ -952,9 +966,13 @@ pub fn replay_main(prop: &dyn Prop, path: &str) -> i32 {
         let id = prop.id().to_string();
         let path = path.to_string();
         std::thread::spawn(move || {
-            let (t0, c0) = (now_ms(), cpu_ms());
-            while cpu_ms().saturating_sub(c0) <= CASE_TIMEOUT_S * 1000 && now_ms().saturating_sub(t0) <= CASE_WALL_TIMEOUT_S * 1000 {
+            // (wall-clock time as in the worker's watchdog: a tick counts for at most two seconds)
+            let (c0, mut last, mut seen_ms) = (cpu_ms(), now_ms(), 0u64);
+            while cpu_ms().saturating_sub(c0) <= CASE_TIMEOUT_S * 1000 && seen_ms <= CASE_WALL_TIMEOUT_S * 1000 {
                 std::thread::sleep(Duration::from_millis(250));
+                let now = now_ms();
+                seen_ms += now.saturating_sub(last).min(2000);
+                last = now;
             }
             println!("REPLAY-VIOLATION signature=hang :: no result after {CASE_TIMEOUT_S}s of CPU time");
             println!("VIOLATION property={id} replay={path}");
